@@ -216,33 +216,47 @@ Definition obs_member_funcs (o : pfile) : list pfunc := flat_map snd (pf_members
 Definition py_classes_ok (m : pmodule) (o : pfile) : bool :=
   ms_eqb (map pc_name (pf_classes o)) (map node_name (declared_classes m)).
 
+(* multiset equality modulo a comparison [e] (an equivalence on the values compared): every value has as
+   many [e]-equals on the one side as on the other.  Python allows the same class name twice in a module
+   (classes local to two methods, redefinitions) and the same method name twice in a class (property getter
+   and setter), so nothing below looks an entry up "by name". *)
+Definition count_by {A B : Type} (e : A -> B -> bool) (x : A) (l : list B) : nat :=
+  List.length (filter (e x) l).
+
+Definition ms_eqb_by {A : Type} (e : A -> A -> bool) (a b : list A) : bool :=
+  forallb (fun x => Nat.eqb (count_by e x a) (count_by e x b)) (a ++ b).
+
+(* what a declared def / class is expected to be listed as *)
+Definition expected_func (k : pnode) : pfunc := (node_name k, node_decos k).
+Definition expected_class (c : pnode) : pclass :=
+  (node_name c, node_decos c, map expected_func (class_methods c)).
+
+Definition func_eqb (f g : pfunc) : bool :=
+  String.eqb (fst f) (fst g) && decos_eqb (snd f) (snd g).
+
+(* same name, same methods (as a multiset of names) *)
+Definition class_eqb_m (a b : pclass) : bool :=
+  String.eqb (pc_name a) (pc_name b) && ms_eqb (map fst (pc_funcs a)) (map fst (pc_funcs b)).
+
+(* same name, same decorators, same methods each with its own decorators *)
+Definition class_eqb_d (a b : pclass) : bool :=
+  String.eqb (pc_name a) (pc_name b) && decos_eqb (pc_decos a) (pc_decos b) &&
+  ms_eqb_by func_eqb (pc_funcs a) (pc_funcs b).
+
+(* every declared class is listed with exactly the defs written directly in its body -- as many times as
+   it is declared *)
 Definition py_methods_ok (m : pmodule) (o : pfile) : bool :=
-  forallb (fun c =>
-    match find_class o (node_name c) with
-    | Some oc => ms_eqb (map fst (pc_funcs oc)) (map node_name (class_methods c))
-    | None => false
-    end) (declared_classes m).
+  ms_eqb_by class_eqb_m (pf_classes o) (map expected_class (declared_classes m)).
 
 Definition py_functions_ok (m : pmodule) (o : pfile) : bool :=
   ms_eqb (map fst (obs_member_funcs o)) (map node_name (declared_functions m)) &&
   forallb (fun mb => match snd mb with [fn] => String.eqb (fst fn) (fst mb) | _ => false end)
           (pf_members o).
 
-(* every class, method and module-level function that is listed carries exactly its own
-   decorators *)
+(* every class, method and module-level function carries exactly its own decorators *)
 Definition py_decorators_ok (m : pmodule) (o : pfile) : bool :=
-  forallb (fun c =>
-    match find_class o (node_name c) with
-    | Some oc =>
-      decos_eqb (pc_decos oc) (node_decos c) &&
-      forallb (fun md => match find (fun fn => String.eqb (fst fn) (node_name md)) (pc_funcs oc) with
-                         | Some fn => decos_eqb (snd fn) (node_decos md)
-                         | None => true end) (class_methods c)
-    | None => true
-    end) (declared_classes m) &&
-  forallb (fun fd => match find (fun fn => String.eqb (fst fn) (node_name fd)) (obs_member_funcs o) with
-                     | Some fn => decos_eqb (snd fn) (node_decos fd)
-                     | None => true end) (declared_functions m).
+  ms_eqb_by class_eqb_d (pf_classes o) (map expected_class (declared_classes m)) &&
+  ms_eqb_by func_eqb (obs_member_funcs o) (map expected_func (declared_functions m)).
 
 (* one entry per imported module ("import a, b" declares two), under the module's own name;
    a from-import lists each imported name under that name or under its alias *)
